@@ -86,4 +86,14 @@ TEXT["C12"] = dict(
   note=("PARTIAL: rename atomicity is an assumption; the temp file's completeness at the rename is established by the "
         "fault enumeration (sampled configurations), not proved; single faults only."),
   technique="Lean 4 proof (prefix-closed invariant over operation traces) + strace trace refinement + fault enumeration")
+TEXT["C11"] = dict(
+  text=("Machine-checked Lean 4 theorem over a model of name -> system path -> components -> output path: for EVERY entry "
+        "name (any bytes) and both modes, if anything is written it is written at <out>/c1/.../cn with n >= 1 and every ci "
+        "non-empty, not '.' or '..', and free of separators, i.e. lexically inside <out>; traversal names are refused. "
+        "Tied to the code by running the freshly built CLI on archives with hostile names in a sandbox with canary files, "
+        "a before/after snapshot of the whole sandbox (property oracle), and comparison of the written file set with the "
+        "model's per-name prediction."),
+  note=("PARTIAL: lexical (no symlinks, Unix only). One genuine defect (preserve-paths wrote '..\\x' and absolute names "
+        "outside the output directory) was repaired in /repo."),
+  technique="Lean 4 proof (path-component model) + sandboxed differential run of the CLI with filesystem snapshots")
 NA = {}
